@@ -529,6 +529,19 @@ impl<C: CryptoKey> DecryptBackend<C> {
     }
 }
 
+#[cfg(feature = "verif-hooks")]
+impl<C: CryptoKey> DecryptBackend<C> {
+    /// Verification hook: decrypt and potentially decompress an already read repository file
+    pub(crate) fn verif_decrypt_file(&self, data: &[u8]) -> RusticResult<Vec<u8>> {
+        self.decrypt_file(data)
+    }
+
+    /// Verification hook: encrypt and potentially compress a repository file
+    pub(crate) fn verif_encrypt_file(&self, data: &[u8]) -> RusticResult<Vec<u8>> {
+        self.encrypt_file(data)
+    }
+}
+
 impl<C: CryptoKey> DecryptWriteBackend for DecryptBackend<C> {
     /// The type of the key.
     type Key = C;
